@@ -110,8 +110,8 @@ def _stage_field_invariant(ctx):
         if f is f_fa or f.qualname in ctx.helpers:
             continue
         for e, ls, path in A.paths(f).all_effects():
-            if e.kind == "store_attr" and e.b in fields and (f.cls is f_fa.cls):
-                ok = False
+            if e.kind == "store_attr" and e.b in fields:
+                ok = False  # written somewhere else (another method, or from outside through an object reference): no invariant to rely on
     if ok:
         out = []
         for path in A.paths(f_fa).paths:
@@ -1073,6 +1073,15 @@ def c19(ctx, rep):
             if f_parse in [t[1] for t in G.resolve_callee(e.a[1], f_main) if t[0] == "func"]:
                 args_t = e.a
     if args_t is None:
+        # main obtains the parser itself and calls parse_args(argv) on it: the parsed options are that call's result
+        from .checks_ip import parser_function
+        if parser_function(ctx) is f_main:
+            for path in fp.paths[:1]:
+                for e, ls in path.calls():
+                    if M.callee_name(e.a) == "parse_args":
+                        args_t = e.a
+            f_parse = f_main
+    if args_t is None:
         raise AnalysisError("main does not call _parse_args")
     A_ = lambda n: ("attr", args_t, n)
     isnone = lambda t: ("compare", ("is",), (t, ("const", None)))
@@ -1196,8 +1205,8 @@ def c19(ctx, rep):
     # parser class is configargparse
     parser_ok = any(cs.ext_names() and cs.ext_names()[0] in ("configargparse.ArgParser", "configargparse.ArgumentParser") for cs in G.by_owner.get(f_parse.qualname, []))
     rep.ob("C19.config-parser", "_parse_args", parser_ok, "the parser is a configargparse parser", W(f_parse), key="C19.config-parser|_parse_args")
-    for path in A.paths(f_parse).paths:
-        r = path.returned()
+    for path in (A.paths(f_parse).paths if f_parse is not f_main else fp.paths[:1]):
+        r = path.returned() if f_parse is not f_main else args_t
         argv_t = ("param", f_parse.mparams[0])
         ok = M.is_call(r) and M.callee_name(r) == "parse_args" and (r[2] == (argv_t,) and not r[3] or (not r[2] and tuple(r[3]) == (("args", argv_t),)))  # parse_args(argv) / parse_args(args=argv)
         rep.ob("C19.no-post-processing", "_parse_args", ok, "_parse_args returns %s; expected parser.parse_args(argv) unmodified" % show(r)[:80], W(f_parse), key="C19.no-post-processing|_parse_args")
